@@ -19,9 +19,10 @@ import (
 // ---- C13: Exchange.Get/GetByHeight return only validated, correctly bound headers ----
 
 type c13P struct {
-	Op    string      `json:"op"` // get | byheight
-	H     uint64      `json:"h"`
-	Peers []behaviour `json:"peers"`
+	Op      string      `json:"op"` // get | byheight
+	H       uint64      `json:"h"`
+	Peers   []behaviour `json:"peers"`
+	Metrics bool        `json:"metrics,omitempty"` // client WithMetrics
 }
 
 const c13Timeout = 2 * time.Second
@@ -63,7 +64,7 @@ func TestC13(t *testing.T) {
 	}
 	rng := r.Rand("c13")
 	for i := 0; i < r.N(650, 30000); i++ {
-		p := c13P{Op: []string{"get", "byheight"}[rng.Intn(2)], H: 2 + uint64(rng.Intn(40))}
+		p := c13P{Op: []string{"get", "byheight"}[rng.Intn(2)], H: 2 + uint64(rng.Intn(40)), Metrics: i%5 == 4}
 		for n := 1 + rng.Intn(4); n > 0; n-- {
 			b := behaviour{Kind: single[rng.Intn(len(single))], K: rng.Intn(3), DelayMs: []int{0, 3, 20, 150, 900, 2500}[rng.Intn(6)]}
 			if rng.Intn(3) == 0 {
@@ -91,7 +92,11 @@ func c13Run(c *mon.Case, p c13P) {
 		for i := range trusted {
 			trusted[i] = i + 1
 		}
-		cw := newClientWorld(c, chain, p.Peers, trusted, p2p.WithRequestTimeout[p2p.ClientParameters](c13Timeout))
+		copts := []p2p.Option[p2p.ClientParameters]{p2p.WithRequestTimeout[p2p.ClientParameters](c13Timeout)}
+		if p.Metrics {
+			copts = append(copts, p2p.WithMetrics[p2p.ClientParameters]())
+		}
+		cw := newClientWorld(c, chain, p.Peers, trusted, copts...)
 		defer cw.close()
 		want := chain.At(p.H)
 		ctx, cancel := context.WithTimeout(context.Background(), time.Minute)
